@@ -425,6 +425,37 @@ let model_ops (v : Zar.t array) (t : string array) : op3 list option =
          | _ -> None)
   | _ -> (match model_ops2 v t with Some l -> Some (List.map (fun o -> O2 o) l) | None -> None)
 
+(* round 5: non_power_two::parse as ONE step of the machine of StorageOps5.v (parse_word / parse_chunk / parse_large with the
+   radix powers and the divide-and-conquer recursion), the text as its bytes after the underscores were filtered out *)
+let parse_ops5 d text radix : op5 list option =
+  let wrap = function Some l -> Some (List.map (fun o -> O3 o) l) | None -> None in
+  if radix land (radix - 1) = 0 then wrap (parse_ops d text radix)
+  else begin
+    let neg, body = split_sign text in
+    let sgn = if neg then Negative else Positive in
+    if List.for_all (fun c -> c = '_') (chars_of body) then Some []
+    else begin
+      let body = let i = ref 0 in while !i < String.length body && body.[!i] = '0' do incr i done; String.sub body !i (String.length body - !i) in
+      let bytes = List.filter (fun c -> c <> '_') (chars_of body) in
+      let dpw, rpw = max_exp_in_word radix in
+      let bs = List.map (fun c -> match digit_of c radix with Some dg -> Some (zi dg) | None -> None) bytes in
+      Some [ OParseL (d, sgn, zi radix, zi dpw, rpw, bs) ]
+    end
+  end
+let model_ops5 (v : Zar.t array) (t : string array) : op5 list option =
+  let s i = usz t.(i) in
+  let n i = nat_of_int (s i) in
+  let t4 = nat_of_int 4 in
+  let o1 l = List.map (fun o -> O3 (O2 (O1 o))) l in
+  match t.(0) with
+  | "pstr" -> parse_ops5 (n 1) t.(3) (s 2)
+  | "rt" when t.(2) = "str16" || t.(2) = "str10" || t.(2) = "str7" ->
+      let radix = match t.(2) with "str16" -> 16 | "str10" -> 10 | _ -> 7 in
+      (match parse_ops5 (n 1) (fmt_radix v.(s 1) radix) radix with
+       | Some l -> Some (o1 [ OMove (t4, n 1) ] @ l @ o1 [ ODrop t4 ])
+       | None -> None)
+  | _ -> (match model_ops v t with Some l -> Some (List.map (fun o -> O3 o) l) | None -> None)
+
 let is_heap cap = abs cap > 2
 
 type rec_ = { outcome : string; dval : string; caps : int array; lens : int array; live : int; words : int; flags : int }
@@ -473,14 +504,14 @@ let judge op args got =
       let bad i what = if !problem = None then problem := Some (Printf.sprintf "step %d: %s" i what) in
       let gcd_side = ref false in
       let run_op o =
-        match step3_64 !gcd_side o !pool !mem with
+        match step5_64 !gcd_side o !pool !mem with
         | Ok ((p, _), m) -> pool := p; mem := m; true
         | _ -> false in
       let resync_all i caps =
         (* rebuild the machine from the reported layout *)
         pool := [ zero; zero; zero; zero; zero; zero; zero; zero ]; mem := mem0;
         Array.iteri (fun k c ->
-          if not (run_op (O2 (O1 (OInstall (nat_of_int k, sg v.(k), words_of v.(k), zi (abs c)))))) then bad i (Printf.sprintf "slot %d breaks the representation invariant" k)) caps in
+          if not (run_op (O3 (O2 (O1 (OInstall (nat_of_int k, sg v.(k), words_of v.(k), zi (abs c))))))) then bad i (Printf.sprintf "slot %d breaks the representation invariant" k)) caps in
       List.iteri (fun i st ->
         let t = Array.of_list st in
         if take () <> "S" then failwith "protocol";
@@ -491,7 +522,7 @@ let judge op args got =
         let live = isz (take ()) in let words = isz (take ()) in let flags = usz (take ()) in
         let before = Array.copy v in
         let prev_heap = Array.map (fun x -> Zar.numbits x > 128) before in
-        let ops = model_ops before t in
+        let ops = model_ops5 before t in
         let want_out, d = spec_step v t in
         (* 1. outcome and value *)
         let out_ok =
@@ -525,7 +556,7 @@ let judge op args got =
              let saved_pool = !pool and saved_mem = !mem in
              (* the side in which gcd_in_place leaves its result is an input of the machine: either side is admitted *)
              let same = attempt false
-                        || (List.exists (function O2 (OGcd _) -> true | _ -> false) l && (pool := saved_pool; mem := saved_mem; attempt true)) in
+                        || (List.exists (function O3 (O2 (OGcd _)) -> true | _ -> false) l && (pool := saved_pool; mem := saved_mem; attempt true)) in
              gcd_side := false;
              if not same then (incr diffs; resync_all i caps)
          | _ -> if !problem = None then resync_all i caps);
